@@ -119,8 +119,18 @@ Exp2B(p) ==
     ops |-> << <<"add", 1>>, <<"publish">>, <<"drain">>, <<"adv", 25>>, <<"drain">>, <<"adv", 25>>, <<"drain">>, <<"adv", 25>>, <<"drain">>,
                <<"adv", 25>>, <<"drain">> >> ]
 
-SessParams == CASE Family = "exp2" -> Exp2P [] Family = "medium" -> MedP [] Family = "wide" -> WideP [] Family = "small" -> SmallP [] Family = "mem" -> MemP [] Family = "clean" -> CleanP [] Family = "car" -> CarP [] Family = "exp" -> ExpP
-SessBuild(p) == CASE Family = "exp2" -> Exp2B(p) [] Family = "medium" -> MedB(p) [] Family = "wide" -> WideB(p) [] Family = "small" -> SmallB(p) [] Family = "mem" -> MemB(p) [] Family = "clean" -> CleanB(p) [] Family = "car" -> CarB(p) [] Family = "exp" -> ExpB(p)
+\* many small objects: the FDT instance itself is an object of several source blocks (25 - 60 kB), sent with No-Code or
+\* Reed-Solomon; in the second publication mode hundreds of small instances follow each other
+ManyP == { <<60, 1024, 8, "full", 0>>, <<60, 512, 4, "obt", 0>>, <<150, 1024, 8, "full", 5>>, <<40, 256, 2, "full", 129>> }
+ManyB(p) ==
+  [ fam |-> "many",
+    cfg |-> [scheme |-> p[5], E |-> p[2], B |-> p[3], par |-> IF p[5] = 0 THEN 0 ELSE 2, interleave |-> 2, queues |-> << <<0, 3>> >>, mode |-> p[4]],
+    objs |-> [i \in 1..p[1] |-> [clen |-> 1 + (i % 7), oti |-> Oti(0, 4, 2, 0, i % 2 = 0)]],
+    drain_cap |-> 30000,
+    ops |-> [i \in 1..p[1] |-> <<"add", i>>] \o << <<"publish">>, <<"drain">> >> ]
+
+SessParams == CASE Family = "many" -> ManyP [] Family = "exp2" -> Exp2P [] Family = "medium" -> MedP [] Family = "wide" -> WideP [] Family = "small" -> SmallP [] Family = "mem" -> MemP [] Family = "clean" -> CleanP [] Family = "car" -> CarP [] Family = "exp" -> ExpP
+SessBuild(p) == CASE Family = "many" -> ManyB(p) [] Family = "exp2" -> Exp2B(p) [] Family = "medium" -> MedB(p) [] Family = "wide" -> WideB(p) [] Family = "small" -> SmallB(p) [] Family = "mem" -> MemB(p) [] Family = "clean" -> CleanB(p) [] Family = "car" -> CarB(p) [] Family = "exp" -> ExpB(p)
 
 -----------------------------------------------------------------------------
 (* extreme but well-formed packets, built with the wire-format specification (family c04x):                   *)
